@@ -93,6 +93,14 @@ func grp05Case(w *vlog.W, a *wargs, id int, rng *rand.Rand, opts harness.Options
 			w.CaseDone("fixture-error", false)
 			return
 		}
+		// a source service whose id contains the '-' that separates the parts of a transaction id
+		if err := wf.RegisterService(harness.ChainAdmin(harness.ChainC), harness.ChainC, "s-4", true, ""); err != nil {
+			wf.R.Close()
+			os.RemoveAll(fx)
+			w.Inconclusive("fixture: " + err.Error())
+			w.CaseDone("fixture-error", false)
+			return
+		}
 		wf.R.Close()
 	}
 	dir := filepath.Join(a.Work, fmt.Sprintf("case-%d", id))
@@ -146,6 +154,10 @@ func grp05Case(w *vlog.W, a *wargs, id int, rng *rand.Rand, opts harness.Options
 	}
 	for gi := 0; gi < nGroups; gi++ {
 		g := &grp{from: harness.FullID(harness.ChainC, []string{"s1", "s2"}[gi%2])}
+		if gi == 1 && (sharedExpiry || rng.Intn(2) == 0) {
+			g.from = harness.FullID(harness.ChainC, "s-4") // '-' also separates the parts of a transaction id
+			shape["source-id-with-dash"] = true
+		}
 		n := 1 + rng.Intn(5)
 		perm := rng.Perm(len(dstPool))
 		withGhost := rng.Intn(4) == 0
@@ -211,6 +223,13 @@ func grp05Case(w *vlog.W, a *wargs, id int, rng *rand.Rand, opts harness.Options
 		h := world.R.Height() + 1
 		var subs []sub
 		n := rng.Intn(4)
+		if sharedExpiry && b == 1 {
+			// one child of the second group succeeds early: at the expiry its destination has to be told as well
+			if g := groups[1]; g.children[0].sent && !g.children[0].reported {
+				subs = append(subs, sub{g, g.children[0], model.KRcpSuccess})
+				g.children[0].reported = true
+			}
+		}
 		if sharedExpiry && b == 0 {
 			for _, gi := range rng.Perm(len(groups)) {
 				g := groups[gi]
